@@ -63,6 +63,7 @@ type c12Run struct {
 	// a call parked inside Checkpoint() and the calls issued while it is parked
 	held   *c12Pending
 	queued []*c12Pending
+	window atomic.Bool       // a hold window is open: calls run in goroutines, publications may overlap
 	mu     sync.Mutex        // guards the two maps (calls may run in goroutines)
 	spIDs  map[uint64]bool   // ids for which a savepoint was requested
 	pubs   map[uint64]string // what was persisted per published id
@@ -75,6 +76,14 @@ func (r *c12Run) noteSavepoint(id uint64) {
 }
 
 func (r *c12Run) newStore(savepointURI string) {
+	// savepoint requests that were not published die with the old store (their id may be handed out again: D55)
+	r.mu.Lock()
+	for id := range r.spIDs {
+		if _, published := r.pubs[id]; !published {
+			delete(r.spIDs, id)
+		}
+	}
+	r.mu.Unlock()
 	r.ctl = &c12Ctl{reached: make(chan struct{}, 1), release: make(chan struct{})}
 	r.store = snapshots.NewStore(&snapshots.NewStoreParams{
 		FileStore:       r.loc,
@@ -129,6 +138,7 @@ func (r *c12Run) issue(f func() string) string {
 		return p.res
 	case <-r.ctl.reached:
 		r.held = p
+		r.window.Store(true)
 		return "held"
 	case <-time.After(10 * time.Second):
 		return "timeout"
@@ -162,6 +172,7 @@ func (r *c12Run) releaseHeld() string {
 		parts = append(parts, wait(q))
 	}
 	r.held, r.queued = nil, nil
+	r.window.Store(false)
 	return "released " + strings.Join(parts, " ; ") + early
 }
 
@@ -249,7 +260,31 @@ func (r *c12Run) afterAck(err error, before int64, cp uint64) string {
 	}
 	r.mu.Lock()
 	r.pubs[cp] = c12Desc(&ck)
+	isSp := r.spIDs[cp]
+	if r.window.Load() {
+		// published inside a hold window: later calls of the window run concurrently with this publication, so the
+		// artifact race described below cannot be kept out; such a savepoint is not used for restarts (both sides)
+		delete(r.spIDs, cp)
+		isSp = false
+	}
 	r.mu.Unlock()
+	if isSp && len(ck.GetOperatorCheckpoints()) == 0 {
+		// The savepoint artifact is created by the publisher goroutine AFTER the lock section (it copies the job
+		// file last). If the next checkpoint is published meanwhile, its cleanup removes that job file and the
+		// artifact silently never exists (a race of the code, D65, open; savepoints are C14's
+		// property). This harness therefore lets the artifact finish before it issues the next call; the expiry
+		// of the wait is an output, not a silent skip.
+		deadline := time.Now().Add(20 * time.Second)
+		for {
+			if _, err := store.SavepointURIForID(cp); err == nil {
+				break
+			}
+			if time.Now().After(deadline) {
+				return res + " pub " + c12Desc(&ck) + " savepoint-artifact-timeout"
+			}
+			time.Sleep(50 * time.Microsecond)
+		}
+	}
 	return res + " pub " + c12Desc(&ck)
 }
 
@@ -701,6 +736,11 @@ func c12Fixed(tier string) []lib.Case {
 			"create 1,2 1", "opack 1 1 3 nokgr", "opack 2 1 4", "srack 1 1 5", "opack 1 1 6", "current"}},
 		{Header: "M C12", Tags: []string{"odd-payload", "published"}, Ops: []string{
 			"create 1 1", "srack 1 1 -", "opack 1 1 3 emptykgr", "create 1 -", "opack 1 2 4 nokgr", "current", "restart", "current"}},
+		// D64 (open): the job configured with savepoint 1 publishes checkpoint 2 and restarts with the same
+		// configuration: it goes back to savepoint 1 although checkpoint 2 is complete in its storage
+		{Header: "M C12", Tags: []string{"D64", "sprestart", "published"}, Ops: []string{
+			"savepoint - 1", "srack 1 1 4", "sprestart 1 same", "create 1 1", "opack 1 2 0", "srack 1 2 5", "current",
+			"sprestart 1 same", "current", "create 1 1", "restart", "current"}},
 		// D55 (open): an id handed out but not persisted before the job process is lost is handed out again, and
 		// acknowledgements made for the old checkpoint complete the new one
 		{Header: "M C12", Tags: []string{"D55", "restart", "published"}, Ops: []string{
